@@ -561,10 +561,38 @@ def make_programs(ctx, n, seed_off=0):
     return progs
 
 
+def align_programs(ctx):
+    """`align N` for N in 1..17, 32, 64, 100, 4096 standing at every residue (sampled for the large N), alone, twice in a
+    row and after code, so that the padding is exercised for powers of two and for every other N."""
+    rng = random.Random(ctx.seed * 7919 + 5)
+    out = []
+    ns = list(range(1, 18)) + [32, 64, 100, 4096]
+    for n in ns:
+        residues = list(range(n)) if n <= 17 else sorted(set([0, 1, 2, n // 2, n - 1] + [rng.randrange(n) for _ in range(4)]))
+        if ctx.quick() and n <= 17:
+            residues = sorted(set([0, 1, n - 1] + [rng.randrange(n) for _ in range(3)]))
+        for res in residues:
+            lead = 'bytes ' + ' '.join(str(160 + (i % 60)) for i in range(res)) if res else ''
+            shape = rng.randrange(4)
+            if shape == 0:
+                lines = [lead, 'align {}'.format(n), 'db 0xee']
+            elif shape == 1:
+                lines = [lead, 'align {}'.format(n), 'align {}'.format(rng.choice(ns[:17])), 'after:', 'db 0xee']
+            elif shape == 2:
+                lines = [lead, 'mark:', 'align {}'.format(n), 'dw mark', 'db 1', 'align {}'.format(n), 'db 0xee']
+            else:
+                lines = ['addi x8, x8, 1', lead, 'align {}'.format(n), 'end_:', 'db 0xee']
+            src = '\n'.join(l for l in lines if l) + '\n'
+            out.append({'source': src, 'meta': []})
+    return out
+
+
 def explore(ctx, prop):
     asm = harness.real_asm()
     n = 300 if ctx.quick() else 6000
     base = make_programs(ctx, n)
+    if prop == 'C09':
+        base = align_programs(ctx) + base
     progs = []
     for p in base:
         progs.append(dict(p, compress=False))
